@@ -746,6 +746,32 @@ func c03Run(c *mon.Ctx, csAny any) {
 				c.Fail(fmt.Sprintf("%s decoded %s, want %s", cs.Dec, v, want), "decode-wrong-point:"+cs.Dec, nil)
 			} else if ok, why := mon.ElemIs(e, want); !ok {
 				c.Fail(cs.Dec+" result re-encodes differently: "+why, "decode-reencode", nil)
+			} else if cs.Dec != "DecodeHex" && len(in) > 0 {
+				// the caller reuses its buffer for the next message (another valid encoding of the same length): the element
+				// decoded from it, and a copy of that element, keep their value
+				var next []byte
+
+				switch d2 := oracle.Dbl(oracle.G()); len(in) {
+				case 33:
+					next = oracle.EncC(d2)
+				case 65:
+					next = oracle.EncU(d2)
+				case 64:
+					next = oracle.EncU(d2)[1:]
+				default:
+					next = bytes.Repeat([]byte{0xff}, len(in))
+				}
+
+				copy(in, next)
+				c.Count("input-buffer-reused-after-accept")
+
+				if ok, why := mon.ElemIs(e, want); !ok {
+					c.Fail(cs.Dec+": after the caller reused the input buffer the decoded element changed: "+why, "decode-retains-input", nil)
+				} else if ok, why := mon.ElemIs(e.Copy(), want); !ok {
+					c.Fail(cs.Dec+": after the caller reused the input buffer a copy of the decoded element differs: "+why, "decode-retains-input", nil)
+				}
+
+				copy(in, inCopy)
 			}
 		}
 	} else {
@@ -816,21 +842,33 @@ func c03RunConc(c *mon.Ctx, seed uint64) {
 
 	var jobs []func() string
 
-	for i := 0; i < concJobs; i++ {
-		p := gen.Fresh(r).P
-		in := oracle.EncC(p)
+	var (
+		in     []byte
+		want   oracle.Pt
+		accept bool
+	)
 
-		switch i % 4 {
-		case 1:
-			in = oracle.EncU(p)
-		case 2:
-			in = append([]byte{2}, oracle.Bytes32(gen.Draw256(r, oracle.P).X)...)
-		case 3:
-			in = oracle.EncU(p)
-			in[40] ^= 1
+	for i := 0; i < concJobs; i++ {
+		// every second job decodes the SAME input slice as the job before it (the input is an argument: only read), into
+		// its own receiver
+		if i%2 == 0 {
+			p := gen.Fresh(r).P
+			in = oracle.EncC(p)
+
+			switch (i / 2) % 4 {
+			case 1:
+				in = oracle.EncU(p)
+			case 2:
+				in = append([]byte{2}, oracle.Bytes32(gen.Draw256(r, oracle.P).X)...)
+			case 3:
+				in = oracle.EncU(p)
+				in[40] ^= 1
+			}
+
+			want, accept = oracle.DecodeRef(in, oracle.FormAny)
 		}
 
-		want, accept := oracle.DecodeRef(in, oracle.FormAny)
+		in, want, accept := in, want, accept
 		jobs = append(jobs, func() string {
 			e, pre := c03Pre(1)
 			err := e.Decode(in)
